@@ -21,10 +21,11 @@ BASE = dict(MaxArgs=0, MaxSegs=0, SegUse={1}, MaxLines=0, HostUse={1}, FolUse={1
 TIERS = {
     "quick": [
         ("call", dict(MaxArgs=1, MaxSegs=1, SegUse=A40, HostUse=H, FolUse={2}, TrailUse={"", ",", ", "})),
-        ("call", dict(MaxArgs=2, MaxSegs=1, SegUse=S16, HostUse={1, 3}, FolUse={1, 4}, TrailUse={""})),
-        ("call", dict(MaxArgs=1, MaxSegs=2, SegUse=A40, HostUse={5}, FolUse={3}, TrailUse={""})),
+        ("call", dict(MaxArgs=2, MaxSegs=1, SegUse=S16, HostUse={1, 3}, FolUse={1, 4, 5}, TrailUse={""})),
+        ("call", dict(MaxArgs=1, MaxSegs=2, SegUse=A40, HostUse={5}, FolUse={3, 7}, TrailUse={""})),
         ("proc", {}),
         ("with", dict(MaxLines=3, FolUse={1, 2})),
+        ("with", dict(MaxLines=2, FolUse={5, 6, 7})),     # the follower is the next macro
     ],
     "thorough": [
         ("call", dict(MaxArgs=1, MaxSegs=2, SegUse=A40, HostUse=H, FolUse={2, 3}, TrailUse={"", ",", ", "})),
@@ -33,6 +34,8 @@ TIERS = {
         ("call", dict(MaxArgs=2, MaxSegs=2, SegUse={1, 3, 6, 10, 14, 22, 25, 28}, HostUse={3}, FolUse={2}, TrailUse={""})),
         ("proc", {}),
         ("with", dict(MaxLines=4, FolUse={1, 2, 4})),
+        ("with", dict(MaxLines=3, FolUse={5, 6, 7})),
+        ("call", dict(MaxArgs=2, MaxSegs=1, SegUse=S16, HostUse={1, 3, 5}, FolUse={5, 7}, TrailUse={""})),
     ],
 }
 
